@@ -174,7 +174,9 @@ def map_owner(db, ctx):
     ctx.ob("resolve_edits|anchor-0", anchor, "resolve_edits forces target_mapping[0] = 0 on its normal exit: %s" % anchor, fn=re)
     ctx.ob("resolve_edits|drains", drains, "resolve_edits drains the pending edits: %s" % drains, fn=re)
     sb = db.one("start_build", "InputBuffer")
-    ident = any(c.get("k") == "MethodCall" and c.get("method") == "extend" and "m2o" in render(c["recv"]) and "start: 0" in render(c["args"][0]) and "self.modified.len() + 1" in render(c["args"][0])
+    from ..inline import range_bounds
+    ident = any(c.get("k") == "MethodCall" and c.get("method") == "extend" and "m2o" in render(c["recv"]) and c["args"]
+                and range_bounds(c["args"][0]) == ("0", "(1 + self.modified.len())")
                 for c, _ in walk(sb.hir))
     ctx.ob("start_build|identity-map", ident, "start_build installs m2o = 0..=len (identity with end sentinel): %s" % ident, fn=sb)
     we = db.one("with_editor", "InputBuffer")
